@@ -16,82 +16,56 @@ Proof.
 Qed.
 
 (* ====================================================================== ClearMetadataAndDocString *)
-Definition docless (g : cgraph) : Prop := forall n, In n (cg_nodes g) -> snd n = false.
-
-Lemma existsb_fst_false (l : list (bool * bool)) :
-  existsb fst l = false -> (forall n, In n l -> snd n = false) -> map (fun _ => (false, false)) l = l.
+Lemma all_clean_map (l : list (bool * bool)) :
+  existsb (fun n => fst n || snd n) l = false -> map (fun _ => (false, false)) l = l.
 Proof.
-  induction l as [|[a b] l IH]; simpl; intros He Hd; [reflexivity|].
-  apply orb_false_iff in He. destruct He as [Ha Hl]. simpl in Ha. subst a.
-  pose proof (Hd (false, b) (or_introl eq_refl)) as Hb. simpl in Hb. subst b.
-  f_equal. apply IH; [exact Hl | intros n Hn; apply Hd; right; exact Hn].
+  induction l as [|[a b] l IH]; simpl; intros H; [reflexivity|].
+  apply orb_false_iff in H. destruct H as [H1 H2]. apply orb_false_iff in H1. destruct H1; subst.
+  f_equal. apply IH. exact H2.
 Qed.
 
-Lemma clear_graph_sound g : docless g -> snd (clear_graph_before_fix g) = false -> fst (clear_graph_before_fix g) = g.
+Lemma clear_graph_sound g : snd (clear_graph g) = false -> fst (clear_graph g) = g.
 Proof.
-  destruct g as [gm gd ns]. unfold docless, clear_graph_before_fix. simpl.
-  destruct ns as [|n ns]; [reflexivity|]. intros Hd Hf. simpl fst. simpl snd in Hf.
-  apply orb_false_iff in Hf. destruct Hf as [He Hdirty]. rewrite Hdirty.
-  f_equal. exact (existsb_fst_false (n :: ns) He Hd).
-Qed.
-
-Lemma clear_flag_sound_partial m :
-  Forall docless m -> snd (clear_pass_before_fix m) = false -> fst (clear_pass_before_fix m) = m.
-Proof.
-  unfold clear_pass_before_fix. simpl. induction m as [|g m IH]; intros Hd Hf; [reflexivity|].
-  simpl in Hf |- *. apply orb_false_iff in Hf. destruct Hf as [Hg Hm].
-  inversion Hd; subst. f_equal; [apply clear_graph_sound; assumption | apply IH; assumption].
-Qed.
-
-Lemma clear_graph_idem g :
-  fst (clear_graph_before_fix (fst (clear_graph_before_fix g))) = fst (clear_graph_before_fix g) /\ snd (clear_graph_before_fix (fst (clear_graph_before_fix g))) = false.
-Proof.
-  destruct g as [gm gd ns]. unfold clear_graph_before_fix at 2 4. simpl cg_nodes.
-  destruct ns as [|n ns]; [simpl; split; reflexivity|].
-  simpl fst. unfold clear_graph_before_fix. simpl cg_nodes. simpl map.
-  assert (E : forall l : list (bool * bool), existsb fst (map (fun _ => (false, false)) l) = false)
-    by (induction l; simpl; [reflexivity | assumption]).
-  assert (M : forall l : list (bool * bool),
-           map (fun _ : bool * bool => (false, false)) (map (fun _ => (false, false)) l) = map (fun _ => (false, false)) l)
-    by (induction l; simpl; [reflexivity | f_equal; assumption]).
-  simpl. rewrite E, M. destruct (gm || gd) eqn:D; simpl.
-  - split; reflexivity.
-  - apply orb_false_iff in D. destruct D; subst. simpl. split; reflexivity.
-Qed.
-
-Lemma clear_converges m :
-  snd (clear_pass_before_fix (fst (clear_pass_before_fix m))) = false /\ fst (clear_pass_before_fix (fst (clear_pass_before_fix m))) = fst (clear_pass_before_fix m).
-Proof.
-  unfold clear_pass_before_fix. simpl. induction m as [|g m [IH1 IH2]]; [split; reflexivity|].
-  simpl. destruct (clear_graph_idem g) as [H1 H2]. rewrite H2, IH1, H1, IH2. split; reflexivity.
-Qed.
-
-Definition w_clear : list cgraph := [ {| cg_meta := false; cg_doc := false; cg_nodes := [(false, true)] |} ].
-
-Lemma clear_flag_refuted_witness : snd (clear_pass_before_fix w_clear) = false /\ fst (clear_pass_before_fix w_clear) <> w_clear.
-Proof. split; [reflexivity | vm_compute; intros H; discriminate]. Qed.
-
-(* repaired flag: full statement *)
-Lemma clear_graph_fixed_sound g : snd (clear_graph g) = false -> fst (clear_graph g) = g.
-Proof.
-  destruct g as [gm gd ns]. unfold clear_graph, clear_graph_before_fix. simpl.
+  destruct g as [gm gd ns]. unfold clear_graph, clear_state. simpl.
   destruct ns as [|n ns]; [reflexivity|]. intros Hf.
   apply orb_false_iff in Hf. destruct Hf as [Hf Hd]. apply orb_false_iff in Hf. destruct Hf as [He Hm].
-  simpl in Hm, Hd. subst gm gd. simpl. f_equal.
-  assert (K : forall l : list (bool * bool), existsb (fun n => fst n || snd n) l = false ->
-              map (fun _ => (false, false)) l = l).
-  { induction l as [|[a b] l IH]; simpl; intros H; [reflexivity|].
-    apply orb_false_iff in H. destruct H as [H1 H2]. apply orb_false_iff in H1. destruct H1; subst.
-    f_equal. apply IH. exact H2. }
-  exact (K (n :: ns) He).
+  simpl in Hm, Hd. subst gm gd. simpl. f_equal. exact (all_clean_map (n :: ns) He).
 Qed.
 
-Lemma clear_fixed_flag_sound m : snd (clear_pass m) = false -> fst (clear_pass m) = m.
+Lemma clear_flag_sound m : snd (clear_pass m) = false -> fst (clear_pass m) = m.
 Proof.
   unfold clear_pass. simpl. induction m as [|g m IH]; intros Hf; [reflexivity|].
   simpl in Hf |- *. apply orb_false_iff in Hf. destruct Hf as [Hg Hm].
-  f_equal; [apply clear_graph_fixed_sound; assumption | apply IH; assumption].
+  f_equal; [apply clear_graph_sound; assumption | apply IH; assumption].
 Qed.
+
+Lemma clear_graph_idem g : snd (clear_graph (fst (clear_graph g))) = false.
+Proof.
+  destruct g as [gm gd ns]. unfold clear_graph at 2. unfold clear_state. simpl.
+  destruct ns as [|n ns]; [reflexivity|].
+  unfold clear_graph. simpl.
+  assert (E : forall l : list (bool * bool), existsb (fun n => fst n || snd n) (map (fun _ => (false, false)) l) = false)
+    by (induction l; simpl; [reflexivity | assumption]).
+  rewrite E. destruct (gm || gd) eqn:D; simpl; [reflexivity|].
+  apply orb_false_iff in D. destruct D; subst. reflexivity.
+Qed.
+
+Lemma clear_converges m :
+  snd (clear_pass (fst (clear_pass m))) = false /\ fst (clear_pass (fst (clear_pass m))) = fst (clear_pass m).
+Proof.
+  assert (F : snd (clear_pass (fst (clear_pass m))) = false).
+  { unfold clear_pass. cbn [fst snd]. induction m as [|g m IH]; [reflexivity|].
+    cbn [map existsb]. rewrite (clear_graph_idem g). exact IH. }
+  split; [exact F | apply clear_flag_sound; exact F].
+Qed.
+
+(* history: before fix fce58f3 a node doc string was cleared without being counted *)
+Definition w_clear : list cgraph := [ {| cg_meta := false; cg_doc := false; cg_nodes := [(false, true)] |} ].
+
+Lemma clear_before_fix_witness :
+  snd (clear_pass_before_fix w_clear) = false /\ fst (clear_pass_before_fix w_clear) <> w_clear
+  /\ snd (clear_pass w_clear) = true.
+Proof. split; [reflexivity | split; [vm_compute; intros H; discriminate | reflexivity]]. Qed.
 
 (* ====================================================================== RemoveUnusedNodes (flat) *)
 Lemma drop_nones_idem l : drop_nones (drop_nones l) = drop_nones l.
@@ -100,190 +74,133 @@ Proof. induction l as [|[x|] l IH]; simpl; [reflexivity | reflexivity | exact IH
 Lemma trim_idem l : trim (trim l) = trim l.
 Proof. unfold trim. rewrite rev_involutive, drop_nones_idem. reflexivity. Qed.
 
-Definition trimmed (n : dnode) : Prop := trim (d_ins n) = d_ins n.
-Definition dce_inv (g : dgraph) : Prop := Forall trimmed (d_nodes g).
-
-Lemma sweep_spec outs : forall l before l' c,
-  sweep_before_fix outs before l = (l', c) ->
-  length l' + c = length l /\ Forall trimmed l' /\ (c = 0 -> l' = map trim_node l).
-Proof.
-  induction l as [|n rest IH]; simpl; intros before l' c H.
-  - inversion H; subst. split; [reflexivity|]. split; [constructor | reflexivity].
-  - destruct (sweep_before_fix outs (before ++ [n]) rest) as [rest' c'] eqn:E.
-    destruct (IH _ _ _ E) as [Hlen [Htr Hz]].
-    destruct (forallb _ (d_outs n)); inversion H; subst.
-    + split; [lia|]. split; [exact Htr | intros Hc; discriminate].
-    + split; [simpl; lia|]. split.
-      * constructor; [unfold trimmed; simpl; apply trim_idem | exact Htr].
-      * intros Hc. rewrite (Hz Hc). reflexivity.
-Qed.
-
-Lemma map_trim_id l : Forall trimmed l -> map trim_node l = l.
-Proof.
-  induction l as [|n l IH]; intros H; [reflexivity|]. inversion H; subst. simpl. f_equal; [|apply IH; assumption].
-  destruct n as [i ins outs]. unfold trim_node, trimmed in *. simpl in *. f_equal. assumption.
-Qed.
-
-Lemma dce_inv_est g : dce_inv (fst (dce_before_fix g)).
-Proof.
-  unfold dce_before_fix. destruct (sweep_before_fix (d_outputs g) [] (d_nodes g)) as [ns c] eqn:E. simpl.
-  apply sweep_spec in E. unfold dce_inv. simpl. tauto.
-Qed.
-
-Lemma dce_size_mono g : dce_size (fst (dce_before_fix g)) <= dce_size g.
-Proof.
-  unfold dce_before_fix, dce_size. destruct (sweep_before_fix (d_outputs g) [] (d_nodes g)) as [ns c] eqn:E. simpl.
-  apply sweep_spec in E. destruct E as [Hlen _].
-  match goal with |- context [filter ?p (d_inits g)] => pose proof (filter_length_le p (d_inits g)) end. lia.
-Qed.
-
-Lemma dce_measure g : snd (dce_before_fix g) = true -> dce_size (fst (dce_before_fix g)) < dce_size g.
-Proof.
-  unfold dce_before_fix, dce_size. destruct (sweep_before_fix (d_outputs g) [] (d_nodes g)) as [ns c] eqn:E. simpl.
-  apply sweep_spec in E. destruct E as [Hlen _]. intros H. apply negb_true_iff in H. apply Nat.eqb_neq in H.
-  match goal with |- context [filter ?p (d_inits g)] => pose proof (filter_length_le p (d_inits g)) end. lia.
-Qed.
-
-Lemma dce_flag_sound_partial g : dce_inv g -> snd (dce_before_fix g) = false -> fst (dce_before_fix g) = g.
-Proof.
-  unfold dce_before_fix, dce_inv. destruct (sweep_before_fix (d_outputs g) [] (d_nodes g)) as [ns c] eqn:E. simpl.
-  apply sweep_spec in E. destruct E as [Hlen [_ Hz]]. intros Hinv H.
-  apply negb_false_iff in H. apply Nat.eqb_eq in H.
-  assert (Hc : c = 0) by lia. specialize (Hz Hc). rewrite map_trim_id in Hz by assumption. subst ns.
-  match goal with |- context [filter ?p (d_inits g)] =>
-    assert (F : filter p (d_inits g) = d_inits g) by (apply filter_length_id; lia) end.
-  rewrite F. destruct g; reflexivity.
-Qed.
-
-Lemma dce_converges g :
-  exists k, k <= dce_size g + 1 /\ snd (dce_before_fix (iterE dgraph dce_before_fix k g)) = false
-            /\ fst (dce_before_fix (iterE dgraph dce_before_fix k g)) = iterE dgraph dce_before_fix k g.
-Proof.
-  apply (converge_fixpoint dgraph dce_before_fix dce_size dce_measure dce_inv dce_inv_est dce_size_mono dce_flag_sound_partial).
-Qed.
-
-(* repaired count: full statement *)
-Lemma ins_eqb_eq a b : ins_eqb a b = true -> a = b.
+Lemma ins_eqb_eq a b : ins_eqb a b = true <-> a = b.
 Proof.
   unfold ins_eqb. apply list_eqb_eq. intros [x|] [y|]; simpl; split; intros H; try discriminate; try reflexivity.
   - apply Pos.eqb_eq in H. subst. reflexivity.
   - inversion H. apply Pos.eqb_refl.
 Qed.
 
-Lemma sweep_fixed_zero outs : forall l before l' c, sweep outs before l = (l', c) -> c = 0 -> l' = l.
+Lemma untrimmed_trim_node n : untrimmed (trim_node n) = false.
 Proof.
-  induction l as [|n rest IH]; simpl; intros before l' c H Hc.
-  - inversion H; reflexivity.
-  - destruct (sweep outs (before ++ [n]) rest) as [rest' c'] eqn:E.
-    destruct (forallb _ (d_outs n)); inversion H; subst; [discriminate|].
-    destruct (ins_eqb (trim (d_ins n)) (d_ins n)) eqn:T; [|discriminate].
-    apply ins_eqb_eq in T. rewrite (IH _ _ _ E H2).
-    destruct n as [i ins os]. unfold trim_node. simpl in *. rewrite T. reflexivity.
+  unfold untrimmed, trim_node. simpl. rewrite trim_idem.
+  apply negb_false_iff. apply ins_eqb_eq. reflexivity.
 Qed.
 
-Lemma dce_fixed_flag_sound g : snd (dce g) = false -> fst (dce g) = g.
+(* removed + kept = all; kept nodes are trimmed; the count is removals + trims, trims <= untrimmed nodes *)
+Lemma sweep_spec outs : forall l before l' c,
+  sweep outs before l = (l', c) ->
+  exists removed trims,
+    c = removed + trims /\ length l' + removed = length l
+    /\ trims <= length (filter untrimmed l) /\ filter untrimmed l' = []
+    /\ (c = 0 -> l' = l).
+Proof.
+  induction l as [|n rest IH]; simpl; intros before l' c H.
+  - inversion H; subst. exists 0, 0. repeat split; simpl; lia.
+  - destruct (sweep outs (before ++ [n]) rest) as [rest' c'] eqn:E.
+    destruct (IH _ _ _ E) as [removed [trims [Hc [Hlen [Htr [Hun Hz]]]]]].
+    destruct (forallb _ (d_outs n)).
+    + inversion H; subst. exists (S removed), trims. split; [lia|]. split; [lia|].
+      split; [destruct (untrimmed n); simpl; lia|]. split; [exact Hun|]. intros Hc0; discriminate.
+    + destruct (ins_eqb (trim (d_ins n)) (d_ins n)) eqn:T; inversion H; subst.
+      * exists removed, trims. split; [reflexivity|]. split; [simpl; lia|].
+        split; [destruct (untrimmed n); simpl; lia|].
+        split; [simpl; rewrite untrimmed_trim_node; exact Hun|].
+        intros Hc0. rewrite (Hz Hc0). apply ins_eqb_eq in T.
+        destruct n as [i ins os]. unfold trim_node. simpl in *. rewrite T. reflexivity.
+      * exists removed, (S trims). split; [lia|]. split; [simpl; lia|].
+        split; [unfold untrimmed at 1; rewrite T; simpl; lia|].
+        split; [simpl; rewrite untrimmed_trim_node; exact Hun|]. intros Hc0; discriminate.
+Qed.
+
+Lemma dce_flag_sound g : snd (dce g) = false -> fst (dce g) = g.
 Proof.
   unfold dce. destruct (sweep (d_outputs g) [] (d_nodes g)) as [ns c] eqn:E. simpl. intros H.
   apply negb_false_iff in H. apply Nat.eqb_eq in H.
-  assert (Hc : c = 0) by lia. rewrite (sweep_fixed_zero _ _ _ _ _ E Hc) in *.
+  apply sweep_spec in E. destruct E as [removed [trims [Hc [Hlen [_ [_ Hz]]]]]].
+  assert (Hc0 : c = 0) by lia. rewrite (Hz Hc0) in *.
   match goal with |- context [filter ?p (d_inits g)] =>
     assert (F : filter p (d_inits g) = d_inits g) by (apply filter_length_id; lia) end.
   rewrite F. destruct g; reflexivity.
 Qed.
 
-(* Clip(x, None, None) feeding the graph output: kept, trimmed, count = 0 *)
+Lemma dce_measure g : snd (dce g) = true -> dce_mu (fst (dce g)) < dce_mu g.
+Proof.
+  unfold dce, dce_mu. destruct (sweep (d_outputs g) [] (d_nodes g)) as [ns c] eqn:E. simpl.
+  apply sweep_spec in E. destruct E as [removed [trims [Hc [Hlen [Htr [Hun _]]]]]].
+  intros H. apply negb_true_iff in H. apply Nat.eqb_neq in H. rewrite Hun. simpl.
+  match goal with |- context [filter ?p (d_inits g)] => pose proof (filter_length_le p (d_inits g)) end. lia.
+Qed.
+
+Lemma dce_mu_mono g : dce_mu (fst (dce g)) <= dce_mu g.
+Proof.
+  unfold dce, dce_mu. destruct (sweep (d_outputs g) [] (d_nodes g)) as [ns c] eqn:E. simpl.
+  apply sweep_spec in E. destruct E as [removed [trims [Hc [Hlen [Htr [Hun _]]]]]]. rewrite Hun. simpl.
+  match goal with |- context [filter ?p (d_inits g)] => pose proof (filter_length_le p (d_inits g)) end. lia.
+Qed.
+
+Lemma dce_converges g :
+  exists k, k <= dce_mu g + 1 /\ snd (dce (iterE dgraph dce k g)) = false
+            /\ fst (dce (iterE dgraph dce k g)) = iterE dgraph dce k g.
+Proof.
+  apply (converge_fixpoint dgraph dce dce_mu dce_measure (fun _ => True)).
+  - intros; exact I.
+  - exact dce_mu_mono.
+  - intros s _. apply dce_flag_sound.
+Qed.
+
+(* history: before fix 16a8fe8 — Clip(x, None, None) feeding the graph output: kept, trimmed, count = 0 *)
 Definition w_dce : dgraph :=
   {| d_nodes := [ {| d_id := 1; d_ins := [Some 10; None; None]; d_outs := [11] |} ]%positive;
      d_outputs := [11%positive]; d_inputs := [10%positive]; d_inits := [] |}.
 
-Lemma dce_flag_refuted_witness : snd (dce_before_fix w_dce) = false /\ fst (dce_before_fix w_dce) <> w_dce.
-Proof. split; [vm_compute; reflexivity | vm_compute; intros H; discriminate]. Qed.
+Lemma dce_before_fix_witness :
+  snd (dce_before_fix w_dce) = false /\ fst (dce_before_fix w_dce) <> w_dce /\ snd (dce w_dce) = true.
+Proof. split; [vm_compute; reflexivity | split; [vm_compute; intros H; discriminate | vm_compute; reflexivity]]. Qed.
 
 (* ====================================================================== TopologicalSort flag *)
-Lemma first_diff_refl l : first_diff l l = false.
-Proof. induction l as [|x l IH]; simpl; [reflexivity | rewrite Pos.eqb_refl; exact IH]. Qed.
+Lemma leqb_iff a b : list_eqb Pos.eqb a b = true <-> a = b.
+Proof. apply list_eqb_eq. apply Pos.eqb_eq. Qed.
 
-Lemma first_diff_false_eq : forall a b, length a = length b -> first_diff a b = false -> a = b.
+Lemma tmodel_eqb_eq a b : tmodel_eqb a b = true <-> a = b.
 Proof.
-  induction a as [|x a IH]; intros [|y b] Hl Hf; simpl in *; try reflexivity; try discriminate.
-  destruct (Pos.eqb x y) eqn:E; [|discriminate]. apply Pos.eqb_eq in E. subst. f_equal. apply IH; [lia | exact Hf].
+  unfold tmodel_eqb, lists_eqb. destruct a as [a1 a2 a3], b as [b1 b2 b3]. simpl. split.
+  - intros H. apply andb_prop in H. destruct H as [H H3]. apply andb_prop in H. destruct H as [H1 H2].
+    apply leqb_iff in H1. apply (list_eqb_eq _ leqb_iff) in H2. apply (list_eqb_eq _ leqb_iff) in H3. subst. reflexivity.
+  - intros H. inversion H; subst. rewrite !andb_true_iff. repeat split;
+      [apply leqb_iff | apply (list_eqb_eq _ leqb_iff) | apply (list_eqb_eq _ leqb_iff)]; reflexivity.
 Qed.
 
-Lemma app_eq_len {A} : forall (a c b d : list A), length a = length c -> a ++ b = c ++ d -> a = c /\ b = d.
+(* full statement, for EVERY sort function *)
+Lemma topo_flag_sound sort m : snd (topo_pass sort m) = false -> fst (topo_pass sort m) = m.
 Proof.
-  induction a as [|x a IH]; intros [|y c] b d Hl H; simpl in *; try discriminate.
-  - split; [reflexivity | exact H].
-  - inversion H as [[Hx Hrest]]. subst y. destruct (IH c b d) as [Ha Hb]; [lia | exact Hrest |]. subst. split; reflexivity.
+  unfold topo_pass. simpl. intros H. apply negb_false_iff in H. apply tmodel_eqb_eq in H. symmetry. exact H.
 Qed.
 
-Section TopoProofs.
-  Variable sort : list positive -> list positive.
-  Hypothesis sort_length : forall l, length (sort l) = length l.
-
-  Lemma concat_sort_eq : forall fs, concat fs = concat (map sort fs) -> fs = map sort fs.
-  Proof.
-    induction fs as [|f fs IH]; simpl; intros H; [reflexivity|].
-    apply app_eq_len in H; [|symmetry; apply sort_length]. destruct H as [H1 H2].
-    f_equal; [exact H1 | apply IH; exact H2].
-  Qed.
-
-  Lemma concat_sort_length : forall fs, length (concat (map sort fs)) = length (concat fs).
-  Proof. induction fs as [|f fs IH]; simpl; [reflexivity|]. rewrite !app_length, sort_length, IH. reflexivity. Qed.
-
-  (* PARTIAL: sound when the model has no subgraphs *)
-  Lemma topo_flag_sound_partial m :
-    t_subs m = [] -> snd (topo_pass_before_fix sort m) = false -> fst (topo_pass_before_fix sort m) = m.
-  Proof.
-    destruct m as [mn fs ss]. unfold topo_pass_before_fix. simpl. intros Hs Hf. subst ss.
-    apply first_diff_false_eq in Hf.
-    - apply app_eq_len in Hf; [|symmetry; apply sort_length]. destruct Hf as [H1 H2].
-      apply concat_sort_eq in H2. simpl. rewrite <- H1, <- H2. reflexivity.
-    - rewrite !app_length, sort_length, concat_sort_length. reflexivity.
-  Qed.
-
-  Hypothesis sort_idem : forall l, sort (sort l) = sort l.
-
-  Lemma topo_converges m :
-    snd (topo_pass_before_fix sort (fst (topo_pass_before_fix sort m))) = false
-    /\ fst (topo_pass_before_fix sort (fst (topo_pass_before_fix sort m))) = fst (topo_pass_before_fix sort m).
-  Proof.
-    destruct m as [mn fs ss]. unfold topo_pass_before_fix. simpl.
+Lemma topo_converges sort m :
+  (forall l, sort (sort l) = sort l) ->
+  snd (topo_pass sort (fst (topo_pass sort m))) = false
+  /\ fst (topo_pass sort (fst (topo_pass sort m))) = fst (topo_pass sort m).
+Proof.
+  intros Hidem.
+  assert (S2 : topo_state sort (topo_state sort m) = topo_state sort m).
+  { destruct m as [mn fs ss]. unfold topo_state. simpl.
     assert (M : forall l, map sort (map sort l) = map sort l)
-      by (induction l; simpl; [reflexivity | rewrite sort_idem; f_equal; assumption]).
-    rewrite sort_idem, !M. split; [apply first_diff_refl | reflexivity].
-  Qed.
-End TopoProofs.
-
-(* repaired flag: full statement, for every sort *)
-Lemma topo_fixed_flag_sound sort m : snd (topo_pass sort m) = false -> fst (topo_pass sort m) = m.
-Proof.
-  unfold topo_pass. simpl. intros H. apply negb_false_iff in H.
-  unfold tmodel_eqb, lists_eqb in H. simpl in H.
-  apply andb_prop in H. destruct H as [H H3]. apply andb_prop in H. destruct H as [H1 H2].
-  assert (LE : forall a b, list_eqb Pos.eqb a b = true <-> a = b) by (apply list_eqb_eq; apply Pos.eqb_eq).
-  apply LE in H1. apply (list_eqb_eq _ LE) in H2. apply (list_eqb_eq _ LE) in H3.
-  destruct m as [mn fs ss]. simpl in *. rewrite <- H1, <- H2, <- H3. reflexivity.
+      by (induction l; simpl; [reflexivity | rewrite Hidem; f_equal; assumption]).
+    rewrite Hidem, !M. reflexivity. }
+  unfold topo_pass. simpl. rewrite S2. split; [|reflexivity].
+  apply negb_false_iff. apply tmodel_eqb_eq. reflexivity.
 Qed.
 
-(* a subgraph [2;1] that sort puts in order, nothing at top level *)
+(* history: before fix 733a9c1 — a subgraph [2;1] that sort puts in order, nothing at top level *)
 Definition w_sort (l : list positive) : list positive :=
   if list_eqb Pos.eqb l [2; 1]%positive then [1; 2]%positive else l.
 Definition w_topo : tmodel := {| t_main := [5%positive]; t_funcs := []; t_subs := [[2; 1]%positive] |}.
 
-Lemma topo_flag_refuted_witness :
-  (forall l, length (w_sort l) = length l) /\ (forall l, w_sort (w_sort l) = w_sort l)
-  /\ snd (topo_pass_before_fix w_sort w_topo) = false /\ fst (topo_pass_before_fix w_sort w_topo) <> w_topo.
-Proof.
-  assert (C : forall l, list_eqb Pos.eqb l [2; 1]%positive = true -> l = [2; 1]%positive).
-  { intros l H. apply (list_eqb_eq Pos.eqb Pos.eqb_eq) in H. exact H. }
-  split; [|split; [|split]].
-  - intros l. unfold w_sort. destruct (list_eqb Pos.eqb l [2; 1]%positive) eqn:E; [|reflexivity].
-    apply C in E. subst. reflexivity.
-  - intros l. unfold w_sort at 2 3. destruct (list_eqb Pos.eqb l [2; 1]%positive) eqn:E; [reflexivity|].
-    unfold w_sort. rewrite E. reflexivity.
-  - reflexivity.
-  - vm_compute. intros H. discriminate.
-Qed.
+Lemma topo_before_fix_witness :
+  snd (topo_pass_before_fix w_sort w_topo) = false /\ fst (topo_pass_before_fix w_sort w_topo) <> w_topo
+  /\ snd (topo_pass w_sort w_topo) = true.
+Proof. split; [reflexivity | split; [vm_compute; intros H; discriminate | reflexivity]]. Qed.
 
 (* ====================================================================== Add/RemoveInitializers(To/From)Inputs *)
 Lemma fold_add_zero : forall l a, fold_left Nat.add l a = 0 -> a = 0 /\ Forall (fun x => x = 0) l.
